@@ -2,7 +2,7 @@
 // Case grammar (see lean/Drivers/C07.lean):
 //
 //	cmp <eco> <hexA> <hexB>          → r=<a?b> rr=<b?a> ra=<a?a> rb=<b?b> acc=<xy>
-//	tri <eco> <hexA> <hexB> <hexC>   → ab=<a?b> bc=<b?c> ac=<a?c> acc=<xyz>
+//	tri <eco> <hexA> <hexB> <hexC>   → ab=<a?b> bc=<b?c> ac=<a?c> ba=<b?a> cb=<c?b> ca=<c?a> acc=<xyz>
 //
 // eco is the ecosystem name with ' ' written as '_'; results are lt|eq|gt|err|panic|unsup.
 // Strings are valid UTF-8 (DESIGN.md §4): ASCII plus a fixed set of non-ASCII probes.
@@ -72,7 +72,8 @@ func runCmp(eco, a, b string) (string, string) {
 
 func runTri(eco, a, b, c string) (string, string) {
 	l := fmt.Sprintf("tri %s %s %s %s", ecoTok(eco), hx.Hex(a), hx.Hex(b), hx.Hex(c))
-	r := fmt.Sprintf("ab=%s bc=%s ac=%s acc=%s%s%s", cmp1(eco, a, b), cmp1(eco, b, c), cmp1(eco, a, c), accFlag(eco, a), accFlag(eco, b), accFlag(eco, c))
+	r := fmt.Sprintf("ab=%s bc=%s ac=%s ba=%s cb=%s ca=%s acc=%s%s%s", cmp1(eco, a, b), cmp1(eco, b, c), cmp1(eco, a, c),
+		cmp1(eco, b, a), cmp1(eco, c, b), cmp1(eco, c, a), accFlag(eco, a), accFlag(eco, b), accFlag(eco, c))
 	return l, r
 }
 
@@ -98,6 +99,11 @@ type family struct {
 	grammar func(r *rand.Rand) string
 	triPool []string             // confusable strings; thorough tier enumerates all ordered triples
 	canon   func(g []int) string // canonical version of the ecosystem's published grammar from a genome (nil: none)
+	// the special-token matrix: every token class the comparator distinguishes at one position
+	// (classes), appended to a base and followed by a short continuation (sufs)
+	bases   []string
+	classes []string
+	sufs    []string
 }
 
 var bigNum = "1234567890123456789012345"
@@ -332,6 +338,15 @@ func canonRuby(g []int) string {
 	return s + gene(g, 7, []string{"", "", "", ".0", ".0.0"})
 }
 
+func canonRedHat(g []int) string {
+	s := gene(g, 0, []string{"", "", "", "1:", "2:", "10:"}) + gene(g, 1, cNums)
+	for i, n := 0, g[2]%3; i < n; i++ {
+		s += gene(g, 3+2*i, []string{".", ".", "~", "^", "~rc", "^git", "a", "rc", "~~", "^^", "~^", "^~", ".a."}) + gene(g, 4+2*i, cNums)
+	}
+	s += gene(g, 8, []string{"", "", "", "~", "^", "a", "~rc", "^git", "el"})
+	return s + gene(g, 9, []string{"", "", "-1", "-2", "-0", "-1.el8", "-1~rc1", "-1^git1", "-10", "-1a", "-~1"})
+}
+
 func canonPyPI(g []int) string {
 	s := gene(g, 0, []string{"", "", "", "1!", "2!"}) + gene(g, 1, cNums)
 	for i, n := 0, g[2]%3; i < n; i++ {
@@ -358,52 +373,82 @@ var families = []family{
 		alpha12: []string{"0", "1", "2", ".", "-", "+", "a", "b", "v", "A", "~", "é"},
 		toks:    []string{"0", "1", "2", "10", "01", "007", "1.2.3", "1.2", "1.2.3.4", "v", "-", "+", "+build.5", ".", "rc", "rc.1", "alpha", "beta", "-1", "+1", "x", bigNum, "a.b", "-rc", "--", "1.0.0-", "1.0.0-alpha.1", "1.0.0-alpha.beta", "1.0.0+meta", "é", "~", "_", "-0", "-00", "-01", "-1a", "-a1", "RC", "V"},
 		refs:    []string{"1.0.0", "1.0.0-a.1"}, grammar: gSemver,
-		triPool: cross([]string{"1.0.0", "1.0", "1", "1.0.0.0", "1.0.1", "v1.0.0", "1.00.0"}, []string{"", "-a", "-1", "-01", "-a.1", "-a.b", "-rc.1", "-rc.1.0", "+m", "-", "-A", "-1a"}), canon: canonSemver},
+		triPool: cross([]string{"1.0.0", "1.0", "1", "1.0.0.0", "1.0.1", "v1.0.0", "1.00.0"}, []string{"", "-a", "-1", "-01", "-a.1", "-a.b", "-rc.1", "-rc.1.0", "+m", "-", "-A", "-1a"}), canon: canonSemver,
+		bases:   []string{"1.0.0", "1.0"},
+		classes: []string{"", "-", "-a", "-A", "-1", "-01", "-a.1", "-a.a", "-a-", "+m", "-rc", "-0", "--", "-1a", "-~", ".1"},
+		sufs:    []string{"", "1", ".1", "a"}},
 	{name: "nuget", ecos: []string{"NuGet"},
 		alpha12: []string{"0", "1", "2", ".", "-", "+", "a", "b", "v", "A", "B", "é"},
 		toks:    []string{"0", "1", "2", "10", "01", "1.2.3.4", "1.2.3.4.5", "v", "-", "+", ".", "rc", "RC", "Rc.1", "alpha", "ALPHA", "-1", "x", bigNum, "-rc", "-RC", "É", "é", "\u0130", "i", "\u212a", "k"},
 		refs:    []string{"1.0.0.0", "1.0.0-RC"}, grammar: gSemver,
-		triPool: cross([]string{"1.0.0.0", "1.0", "1", "1.0.0.0.0", "1.0.0.1", "1.0.0.0.1"}, []string{"", "-a", "-A", "-1", "-a.1", "-A.B", "-rc.1", "-RC.1", "+m", "-b"}), canon: canonNuGet},
+		triPool: cross([]string{"1.0.0.0", "1.0", "1", "1.0.0.0.0", "1.0.0.1", "1.0.0.0.1"}, []string{"", "-a", "-A", "-1", "-a.1", "-A.B", "-rc.1", "-RC.1", "+m", "-b"}), canon: canonNuGet,
+		bases:   []string{"1.0.0", "1.0.0.0"},
+		classes: []string{"", "-", "-a", "-A", "-1", "-01", "-a.1", "-A.1", "-a-", "+m", "-rc", "-RC", "-0", "--", "-1a", ".1"},
+		sufs:    []string{"", "1", ".1", "a"}},
 	{name: "cran", ecos: []string{"CRAN"},
 		alpha12: []string{"0", "1", "2", "9", ".", "-", "+", "a", "x", "_", "\u00a0", "é"},
 		toks:    []string{"0", "1", "2", "10", "01", "007", ".", "-", "1.2", "1-2", "a", "x", "+1", "+", bigNum, "", " ", "1.2.3", "..", "--", "é"},
 		refs:    []string{"1.0", "1-0-0"}, grammar: gCran,
-		triPool: cross([]string{"1", "1.0", "1-0", "1.0.0", "1.", "1..", "01", "+1", "1.1", "0.1", ""}, []string{"", ".0", "-1", ".01", "."}), canon: canonCran},
+		triPool: cross([]string{"1", "1.0", "1-0", "1.0.0", "1.", "1..", "01", "+1", "1.1", "0.1", ""}, []string{"", ".0", "-1", ".01", "."}), canon: canonCran,
+		bases:   []string{"1.0", "1"},
+		classes: []string{"", ".1", "-1", ".0", "-0", ".", ".10", ".01", "-", ".2"},
+		sufs:    []string{"", ".1", "-1", "0"}},
 	{name: "debian", ecos: []string{"Debian", "Ubuntu"},
 		alpha12: []string{"0", "1", "9", ".", "-", ":", "~", "+", "a", "Z", "\u00a0", "é"},
 		toks:    []string{"0", "1", "2", "10", "01", "007", "1.2.3", "a", "b", "rc", "~", "~~", "+", "-", "--", ":", "1:", "0:", "x:", "-1:", ".", "..", "_", "^", "A", "Z", "z", "deb12u4", "ubuntu1", "dfsg", "+b1", bigNum, " ", "\t", "1a", "a1", "é", "\u00a0", "€"},
 		refs:    []string{"1.0-1", "1:1.0~rc1-1"}, grammar: gDebian,
-		triPool: cross([]string{"1.0", "1", "0:1.0", "1:1", "1.0~", "1.0~~", "1.0a", "1.0+", "1.0é", "1.00", "1.0.", "1.0-0", "1.0-"}, []string{"", "-1", "-1~", "~rc1", "+b1", "-01"}), canon: canonDebian},
+		triPool: cross([]string{"1.0", "1", "0:1.0", "1:1", "1.0~", "1.0~~", "1.0a", "1.0+", "1.0é", "1.00", "1.0.", "1.0-0", "1.0-"}, []string{"", "-1", "-1~", "~rc1", "+b1", "-01"}), canon: canonDebian,
+		bases:   []string{"1.0", "1:1.0", "1.0-1"},
+		classes: []string{"", "~", "+", ".", "-", "a", "z", "A", "1", "~~", ".a", "+b", "_", "~a", "a~", "0"},
+		sufs:    []string{"", "1", "rc1", "a"}},
 	{name: "rubygems", ecos: []string{"RubyGems"},
 		alpha12: []string{"0", "1", "2", "9", ".", "-", "a", "b", "r", "c", "A", "é"},
 		toks:    []string{"0", "1", "2", "10", "01", "007", "1.2.3", ".", "..", "a", "b", "rc", "pre", "rc1", "1a", "a1", "-", "x", bigNum, ".0", "0.0", "A", "é", "+1", "-1"},
 		refs:    []string{"1.0.0", "1.0.0.rc1"}, grammar: gRuby,
-		triPool: cross([]string{"1", "1.0", "1.0.0", "1.0.1", "1.00", "01", "1.", "1..0"}, []string{"", ".a", ".rc1", "rc1", ".rc.1", ".a.0", "a", ".0.a", "-1", ".b", ".A"}), canon: canonRuby},
+		triPool: cross([]string{"1", "1.0", "1.0.0", "1.0.1", "1.00", "01", "1.", "1..0"}, []string{"", ".a", ".rc1", "rc1", ".rc.1", ".a.0", "a", ".0.a", "-1", ".b", ".A"}), canon: canonRuby,
+		bases:   []string{"1.0", "1"},
+		classes: []string{"", ".a", ".rc", ".pre", ".1", ".0", ".a1", "a", "-1", ".A", ".b", ".z", ".00", ".a.0"},
+		sufs:    []string{"", "1", ".1", ".0"}},
 	{name: "redhat", ecos: []string{"Red Hat"},
 		alpha12: []string{"0", "1", "9", ".", "-", ":", "~", "^", "a", "Z", "_", "é"},
 		toks:    []string{"0", "1", "2", "10", "01", "007", "1.2.3", "a", "b", "rc", "~", "~~", "^", "^^", "+", "-", "--", ":", "1:", "0:", "x:", ".", "..", "_", "A", "Z", "z", "el8", "fc39", bigNum, " ", "1a", "a1", "é", "€", "pkg-"},
 		refs:    []string{"1.0-1.el8", "0:1.0~rc1-1"}, grammar: gRedHat,
-		triPool: cross([]string{"1.0", "1", "0:1.0", "1:1", "1.0~", "1.0^", "1.0a", "1.0.", "1.00", "1.0~~", "1.0^1", "1.0~1", "", "~", "^", "."}, []string{"", "-1", "-1~", "-^", "a", ".a"})},
+		triPool: cross([]string{"1.0", "1", "0:1.0", "1:1", "1.0~", "1.0^", "1.0a", "1.0.", "1.00", "1.0~~", "1.0^1", "1.0~1", "", "~", "^", "."}, []string{"", "-1", "-1~", "-^", "a", ".a"}), canon: canonRedHat,
+		bases:   []string{"1.0", "1.0-1", "2:1.0"},
+		classes: []string{"", "~", "^", ".", "_", "+", "1", ".1", "a", ".a", "~~", "^^", "~^", "^~", ".0", "01", "A"},
+		sufs:    []string{"", "1", "rc1", "git1", "a"}},
 	{name: "packagist", ecos: []string{"Packagist"},
 		alpha12: []string{"0", "1", "2", ".", "-", "#", "p", "a", "R", "C", "v", "é"},
 		toks:    []string{"0", "1", "2", "10", "01", "1.2.3", ".", "-", "_", "+", "v", "V", "dev", "alpha", "a", "beta", "b", "RC", "rc", "#", "p", "pl", "patch", "RC1", "p1", "beta2", "B", "Alpha", bigNum, "99999999999999999999", "x", "é", "..", "stable"},
 		refs:    []string{"1.0.0", "1.0.0-RC1"}, grammar: gPackagist,
-		triPool: cross([]string{"1", "1.0", "1.0.0", "1.5", "1.99999999999999999999", "v1", "1.1"}, []string{"", "-dev", "-a", "-alpha1", "-b2", "-RC", "-rc1", "-p", "-p1", "-pl", ".x", "x", "-stable"})},
+		triPool: cross([]string{"1", "1.0", "1.0.0", "1.5", "1.99999999999999999999", "v1", "1.1"}, []string{"", "-dev", "-a", "-alpha1", "-b2", "-RC", "-rc1", "-p", "-p1", "-pl", ".x", "x", "-stable"}),
+		bases:   []string{"1.0", "1.0.0"},
+		classes: []string{"", "-dev", "-alpha", "-a", "-beta", "-b", "-RC", "-rc", "-p", "-pl", "-patch", "-stable", ".1", ".0", "-#", "-x"},
+		sufs:    []string{"", "1", ".1", "2"}},
 	{name: "pypi", ecos: []string{"PyPI"},
 		alpha12: []string{"0", "1", ".", "-", "!", "+", "a", "r", "c", "d", "v", "p"},
 		toks:    []string{"1!", "2!", ".post1", "-1", ".dev2", "dev", "post", "rev3", "r4", "c1", "rc", "preview", "pre", ".a1", "b", ".b2", "+local", "+abc.5", "+1.a", "+A_b", "1.0", "1.0.0", " ", "v", "V", ".", ".0", "final", "0", "1", "2", "10", "01", "007", "1.2.3", "a", "-", "_", "x", bigNum, "é", "\u0130", "\u212a", "~", "@", "*"},
 		refs:    []string{"1.0", "1.0.post1.dev2"}, grammar: gPyPI,
-		triPool: cross([]string{"1.0", "1", "1.0.0", "0!1", "1!0", "1.1", "x1", "1.0x"}, []string{"", "a", "a0", ".a1", "b1", "rc1", "c1", ".post1", "-1", ".dev1", ".post1.dev1", "a1.dev1", "+l", "+1", "+l.1", ".dev", "-"}), canon: canonPyPI},
+		triPool: cross([]string{"1.0", "1", "1.0.0", "0!1", "1!0", "1.1", "x1", "1.0x"}, []string{"", "a", "a0", ".a1", "b1", "rc1", "c1", ".post1", "-1", ".dev1", ".post1.dev1", "a1.dev1", "+l", "+1", "+l.1", ".dev", "-"}), canon: canonPyPI,
+		bases:   []string{"1.0", "1!1.0", "1.0a1", "1.0.post1"},
+		classes: []string{"", ".dev", "a", "b", "rc", "c", ".post", ".rev", "-", ".alpha", ".beta", ".pre", "+l", ".1", ".0", "dev", "post", ".preview"},
+		sufs:    []string{"", "1", "2", "0"}},
 	{name: "alpine", ecos: []string{"Alpine"},
 		alpha12: []string{"0", "1", "9", ".", "_", "-", "r", "p", "a", "~", "c", "é"},
 		toks:    []string{"0", "1", "2", "10", "01", "00", "007", "1.2.3", ".", "..", "a", "b", "z", "A", "_alpha", "_beta1", "_pre", "_rc2", "_p", "_p1", "_pre1", "_git", "_hg3", "_cvs", "_svn", "_x", "-r", "-r0", "-r12", "-rx", "~abc", "~1f", "~g", "~", bigNum, "é", "!", "_"},
 		refs:    []string{"1.0", "1.0.0_rc1-r1"}, grammar: gAlpine,
-		triPool: cross([]string{"1", "1.0", "1.00", "1.1", "1.01", "1.10", "1.0.0", "2", "1.02", "9!", "10!", "9.5"}, []string{"", "a", "_alpha", "_rc1", "_p1", "_p", "-r0", "-r1"})},
+		triPool: cross([]string{"1", "1.0", "1.00", "1.1", "1.01", "1.10", "1.0.0", "2", "1.02", "9!", "10!", "9.5"}, []string{"", "a", "_alpha", "_rc1", "_p1", "_p", "-r0", "-r1"}),
+		bases:   []string{"1.0", "1.2.3"},
+		classes: []string{"", "_alpha", "_beta", "_pre", "_rc", "_cvs", "_svn", "_git", "_hg", "_p", "a", "b", ".1", ".0", "-r1", "_x", "~abc"},
+		sufs:    []string{"", "1", "2", "-r1"}},
 	{name: "maven", ecos: []string{"Maven"},
 		alpha12: []string{"0", "1", "2", ".", "-", "a", "r", "c", "f", "o", "s", "p"},
 		toks:    []string{"0", "1", "2", "10", "01", "007", "1.0", "1.0.0", ".", "-", "..", "--", ".0", "-0", "final", "ga", "release", "cr", "CR1", "sp", "SP2", "snapshot", "SNAPSHOT", "milestone", "m1", "m", "a1", "b2", "a", "b", "foo", "Final", "-final", "jre", "rc", "alpha", "beta", bigNum, "é", "é1", "€2", "x", "_", "+"},
 		refs:    []string{"1.0", "1.0-rc1"}, grammar: gMaven,
-		triPool: cross([]string{"1", "1.0", "1.1", "0", "1.0.1"}, []string{"", ".alpha", ".rc1", ".foo", "-foo", ".sp", "-sp", ".1", "-1", "rc", "a", ".a", "-a", "alpha", "-alpha-1", "-alpha1", "-rc", "-SNAPSHOT", "-ga", "-m1", "-xyz1"})},
+		triPool: cross([]string{"1", "1.0", "1.1", "0", "1.0.1"}, []string{"", ".alpha", ".rc1", ".foo", "-foo", ".sp", "-sp", ".1", "-1", "rc", "a", ".a", "-a", "alpha", "-alpha-1", "-alpha1", "-rc", "-SNAPSHOT", "-ga", "-m1", "-xyz1"}),
+		bases:   []string{"1.0", "1"},
+		classes: []string{"", "-alpha", "-beta", "-milestone", "-rc", "-snapshot", "-sp", "-ga", "-final", "-release", "-foo", "-1", ".1", ".0", ".alpha", ".foo", "-a", "-b", "-m", "-cr"},
+		sufs:    []string{"", "1", "-1", ".1"}},
 }
 
 func famAlphabet(f *family) []string {
@@ -521,6 +566,10 @@ func genTriple(r *rand.Rand, f *family) (string, string, string) {
 	if r.Intn(3) == 0 {
 		return pick(r, f.triPool), pick(r, f.triPool), pick(r, f.triPool)
 	}
+	if r.Intn(3) == 0 { // three different special tokens at the same position
+		x := pick(r, f.bases)
+		return x + pick(r, f.classes) + pick(r, f.sufs), x + pick(r, f.classes) + pick(r, f.sufs), x + pick(r, f.classes) + pick(r, f.sufs)
+	}
 	a := genString(r, f)
 	b := mutate(r, f, a)
 	c := mutate(r, f, pick(r, []string{a, b}))
@@ -573,6 +622,41 @@ func main() {
 	emitCmp := func(eco, a, b string) { out.Emit(runCmp(eco, a, b)) }
 	emitTri := func(eco, a, b, c string) { out.Emit(runTri(eco, a, b, c)) }
 
+	// (0) the special-token matrix, in BOTH tiers: for every pair of token classes t1, t2 of a family the
+	// versions x+t1+s and x+t2+s face each other directly (cmp: published-rule oracle) and with the plain
+	// x, resp. a second continuation, as third version (tri: all six comparisons are reported, so the
+	// oracle sees every ordering of the triple)
+	{
+		k := 0
+		for fi := range families {
+			f := &families[fi]
+			bases := f.bases
+			if o.Tier != "thorough" {
+				bases = bases[:1]
+			}
+			for _, x := range bases {
+				for i, t1 := range f.classes {
+					for j, t2 := range f.classes {
+						if j <= i {
+							continue
+						}
+						for si, s1 := range f.sufs {
+							k++
+							if k%*shards != *shard {
+								continue
+							}
+							eco := f.ecos[k%len(f.ecos)]
+							s2 := f.sufs[(si+1)%len(f.sufs)]
+							emitCmp(eco, x+t1+s1, x+t2+s1)
+							emitTri(eco, x+t1+s1, x, x+t2+s1)
+							emitTri(eco, x+t1+s1, x+t2+s1, x+t2+s2)
+							emitTri(eco, x+t1+s1, x+t1+s2, x+t2+s1)
+						}
+					}
+				}
+			}
+		}
+	}
 	if o.Tier == "thorough" {
 		// (1) every string of length ≤ 4 over 12 symbols, per family: against itself (ra/rb), its
 		// predecessor in the enumeration, a seeded random member, and two fixed reference versions
@@ -597,15 +681,29 @@ func main() {
 					emitCmp(eco, s, ref)
 				}
 			}
-			// (2) all ordered triples over the family's pool of confusable strings
+			// (2) all triples over the family's pool of confusable strings (unordered: a tri case reports
+			// all six comparisons)
 			k := 0
-			for _, a := range f.triPool {
-				for _, b := range f.triPool {
-					for _, c := range f.triPool {
-						if k%*shards == *shard && (len(f.triPool) <= 60 || (k/(*shards))%4 == 0) {
+			for i, a := range f.triPool {
+				for j, b := range f.triPool[i:] {
+					for _, c := range f.triPool[i+j:] {
+						if k%*shards == *shard {
 							emitTri(f.ecos[k%len(f.ecos)], a, b, c)
 						}
 						k++
+					}
+				}
+			}
+			// (3) all triples of token classes at one position, first continuation
+			for _, x := range f.bases {
+				for i, t1 := range f.classes {
+					for j, t2 := range f.classes[i:] {
+						for _, t3 := range f.classes[i+j:] {
+							if k%*shards == *shard {
+								emitTri(f.ecos[k%len(f.ecos)], x+t1+f.sufs[1], x+t2+f.sufs[1], x+t3+f.sufs[1])
+							}
+							k++
+						}
 					}
 				}
 			}
